@@ -32,7 +32,8 @@ RULE = ("scripts = trees of contexts (Input with every sigint_event x disable_te
         "bodies of <= 4 operations (requests returning without/with a read, raising after the read, interrupted by a real SIGINT "
         "while blocked in select; renders; trigger creation incl. threadsafe) truncated by an exception at any position; initial "
         "tty attributes (ECHO/ICANON/ISIG/IEXTEN/IXON/ICRNL/OPOST toggles, VMIN/VTIME/VSTOP/VSTART), initial O_NONBLOCK/O_APPEND, "
-        "initial SIGINT handler (default, SIG_IGN, user), initial wake-up fd (none, user pipe); main and non-main thread. "
+        "initial SIGINT handler (default_int_handler, SIG_DFL, SIG_IGN, user function), re-use of the same object after an environment "
+        "change (tty attribute toggles/VINTR, O_APPEND, SIGINT handler), initial wake-up fd (none, user pipe); main and non-main thread. "
         "fixed enumeration: every context x every flag combination x {empty body, raise} x both threads; + seeded random trees. "
         "non-trivial = distinct scripts with at least one context entered")
 ASSUMPTIONS = [
@@ -46,8 +47,10 @@ ASSUMPTIONS = [
     "cursor visibility / alternate screen / main-screen writes are read off the window's output stream with the regenerated "
     "blessed capability strings (TERM=xterm); 'main screen untouched' = no output other than mode switches lands while the "
     "alternate screen is not active between entering and leaving a FullscreenWindow",
-    "a fresh context-manager object is used for every `with` (re-entering the same FullscreenWindow object raises RuntimeError in "
-    "__enter__, before anything is written: its blessed fullscreen() generator is single-use) - not flagged, by decision",
+    "re-use of one context-manager object (after it was left, with the environment changing tty attributes / status flags / "
+    "SIGINT handler in between) is covered for Input, Cbreak, Nonblocking, Termmode and CursorAwareWindow; re-entering the same "
+    "FullscreenWindow object raises RuntimeError in __enter__ before anything is written (blessed's fullscreen() generator is "
+    "single-use) - kept out, not flagged, by decision; environment changes happen between uses, not while a context is active",
     "an exception raised inside CursorAwareWindow.__enter__ itself (cursor query) leaves cbreak on, but the context was never "
     "entered, so 'leaving the context' does not apply - not flagged, by decision",
 ]
@@ -74,6 +77,10 @@ class SEv(cevents.ScheduledEvent):
 
 
 def user_handler_1(signum, frame):
+    pass
+
+
+def user_handler_2(signum, frame):
     pass
 
 
@@ -142,6 +149,17 @@ def mod_attrs(base, spec):
     for name, k in (("vmin", termios.VMIN), ("vtime", termios.VTIME), ("vstop", termios.VSTOP), ("vstart", termios.VSTART)):
         if name in spec:
             cc[k] = bytes([spec[name]])
+    return a
+
+
+def apply_env_tty(attrs, k):
+    """environment change #k of the tty attributes: k < len(TOGGLES) toggles that flag, k = 7 changes VINTR"""
+    a = [x if not isinstance(x, list) else list(x) for x in attrs]
+    if k < len(TOGGLES):
+        kind, bit = TOGGLES[k]
+        a[{"i": 0, "o": 1, "l": 3}[kind]] ^= bit
+    else:
+        a[6][termios.VINTR] = b"\x03" if a[6][termios.VINTR] != b"\x03" else b"\x07"
     return a
 
 
@@ -241,18 +259,49 @@ def balance(toks):
     return out
 
 
+ENV_STEPS = ["et%d" % k for k in range(8)] + ["ef%d" % os.O_APPEND]
+
+
 def rand_case(r):
     main = r.random() < 0.7
-    sig0 = r.choice(["d", "d", "d", "i", "u1"]) if main else "d"
+    sig0 = r.choice(["d", "d", "d", "i", "u1", "D", "D"]) if main else "d"
     wake0 = r.random() < 0.3 and main
     top = r.choice(CTX_TOKENS)
     se = (top[2] == "1") if top.startswith("(I") else None
     hs = "d" if sig0 == "d" and not (se and main) else "o"
     budget = [9]
     inner = gen_body(r, 1, se, hs, main, budget, top.startswith("(M"))
-    toks = balance([top] + inner + [")"])
+    first = [top] + inner + [")"]
+    toks = balance(first)
+    if toks == first and top[1] != "F" and r.random() < 0.4:
+        # use the SAME object again after the environment changed the terminal / flags / handler
+        steps = [r.choice(ENV_STEPS) for _ in range(r.randint(1, 2))]
+        cur = sig0
+        if main and r.random() < 0.5:
+            cur = r.choice(["d", "i", "D", "u1", "u2"])
+            steps.append("es" + cur)
+        hs2 = "d" if cur == "d" and not (se and main) else "o"
+        inner2 = gen_body(r, 1, se, hs2, main, [5], top.startswith("(M"))
+        toks = balance(first + steps + ["(=0"] + inner2 + [")"])
     return dict(main=int(main), sig0=sig0, wake0=int(wake0), nonblock0=int(r.random() < 0.25), append0=int(r.random() < 0.2),
                 attrs=rand_attr_spec(r), given=[rand_attr_spec(r), rand_attr_spec(r)], toks=toks)
+
+
+def corpus_cases():
+    """histories that run first: the seeded mutants C12 once missed"""
+    base = dict(wake0=0, nonblock0=0, append0=0, attrs={}, given=[{"toggle": [0, 1]}, {"vmin": 0}], tag="corpus")
+    out = []
+    # (a) initial disposition SIG_DFL (falsy IntEnum): Input(sigint_event=True) must put it back
+    for toks in (["(I10", ")"], ["(I11", "q1", ")"], ["(I10", "q3", ")"], ["(I10", "!", ")"]):
+        out.append(dict(base, main=1, sig0="D", toks=toks))
+    # (b) the SAME object used twice with the terminal changed in between: the second exit must restore the state of the
+    #     second entry (a mutant that keeps the attributes captured at the first entry undoes the change)
+    for top in ("(I00", "(I11", "(B", "(M0", "(C10", "(N"):
+        for env in (["et0"], ["et7"], ["ef%d" % os.O_APPEND], ["esu2"], ["et1", "ef%d" % os.O_APPEND, "esi"]):
+            body = ["q1"] if top[1] == "I" else []
+            out.append(dict(base, main=1, sig0="d", toks=[top] + body + [")"] + env + ["(=0"] + body + [")"]))
+        out.append(dict(base, main=0, sig0="d", toks=[top, ")", "et0", "ef%d" % os.O_APPEND, "(=0", ")"]))
+    return out
 
 
 def fixed_cases():
@@ -277,7 +326,7 @@ def fixed_cases():
     ]
     for toks in extra:
         for wake0 in (0, 1):
-            for sig0 in ("d", "i", "u1"):
+            for sig0 in ("d", "i", "u1", "D"):
                 if "q3" in toks and sig0 != "d":
                     continue
                 cases.append(dict(main=1, sig0=sig0, wake0=wake0, nonblock0=0, append0=0, attrs={"toggle": [4]},
@@ -295,7 +344,8 @@ class Runner:
         self.main = bool(case["main"])
         self.snaps = []          # raw observations
         self.events = []         # ("enter"/"op"/"exit", token, snapshot index) for the oracle
-        self.inputs = []
+        self.objs = []           # context-manager objects in creation order, with their creating token
+        self.entries = []        # Input objects in ENTRY order (the model numbers Inputs per entry)
         self.raised = False
         self.problem = None
 
@@ -320,7 +370,8 @@ class Runner:
         self.user_pipe = None
         self.old_sig = signal.getsignal(signal.SIGINT)
         self.old_wake = None
-        self.sig_map = {"d": signal.default_int_handler, "i": signal.SIG_IGN, "u1": user_handler_1}
+        self.sig_map = {"d": signal.default_int_handler, "i": signal.SIG_IGN, "D": signal.SIG_DFL, "u1": user_handler_1,
+                        "u2": user_handler_2}
         signal.signal(signal.SIGINT, self.sig_map[c["sig0"]])
         if c["wake0"]:
             self.user_pipe = os.pipe()
@@ -364,6 +415,9 @@ class Runner:
             return self.term_cache[term]
         if term.startswith("g"):
             v = self.given[int(term[1:])]
+        elif term.startswith("env"):
+            fn, inner = term.split("(", 1)
+            v = self.settle(apply_env_tty(self.eval_term(inner[:-1]), int(fn[3:])))
         else:
             fn, inner = term.split("(", 1)
             x = self.eval_term(inner[:-1])
@@ -415,33 +469,38 @@ class Runner:
         else:
             wake = None
         snap = dict(tty=termios.tcgetattr(self.slave), fl=fcntl.fcntl(self.slave, fcntl.F_GETFL), sig=sig, wake=wake,
-                    fds=open_fds() - self.baseline, cur=cur, alt=alt, main_writes=mw, npipes=len(self.shim.pipes))
+                    fds=open_fds() - self.baseline, cur=cur, alt=alt, main_writes=mw, npipes=len(self.shim.pipes), nentries=len(self.entries))
         self.snaps.append(snap)
         return len(self.snaps) - 1
 
     # -- execution --
     def make(self, tok):
+        """-> (object, creating token).  `(=k` re-uses object k (created earlier in this script and left since)."""
+        if tok.startswith("(="):
+            obj, otok = self.objs[int(tok[2:])]
+            if otok[1] == "C":
+                os.write(self.master, b"\x1b[3;1R")
+            return obj, otok
         k = tok[1]
         if k == "I":
-            inp = cinput.Input(in_stream=self.in_stream, sigint_event=tok[2] == "1", disable_terminal_start_stop=tok[3] == "1")
-            self.inputs.append(inp)
-            return inp
-        if k == "F":
-            w = FW(out_stream=self.out, hide_cursor=tok[2] == "1")
-            self.note_strings(w)
-            return w
-        if k == "C":
-            w = CursorAwareWindow(out_stream=self.out, in_stream=self.in_stream, hide_cursor=tok[2] == "1", keep_last_line=tok[3] == "1")
-            self.note_strings(w)
+            obj = cinput.Input(in_stream=self.in_stream, sigint_event=tok[2] == "1", disable_terminal_start_stop=tok[3] == "1")
+        elif k == "F":
+            obj = FW(out_stream=self.out, hide_cursor=tok[2] == "1")
+            self.note_strings(obj)
+        elif k == "C":
+            obj = CursorAwareWindow(out_stream=self.out, in_stream=self.in_stream, hide_cursor=tok[2] == "1", keep_last_line=tok[3] == "1")
+            self.note_strings(obj)
             os.write(self.master, b"\x1b[3;1R")      # the terminal's answer to the cursor query of __enter__
-            return w
-        if k == "B":
-            return Cbreak(self.in_stream)
-        if k == "N":
-            return Nonblocking(self.in_stream)
-        if k == "M":
-            return Termmode(self.in_stream, self.given[int(tok[2:])])
-        raise KeyError(tok)
+        elif k == "B":
+            obj = Cbreak(self.in_stream)
+        elif k == "N":
+            obj = Nonblocking(self.in_stream)
+        elif k == "M":
+            obj = Termmode(self.in_stream, self.given[int(tok[2:])])
+        else:
+            raise KeyError(tok)
+        self.objs.append((obj, tok))
+        return obj, tok
 
     t_strings = dict(hide="\x1b[?25l", show="\x1b[?12l\x1b[?25h", alt_on="\x1b[?1049h", alt_off="\x1b[?1049l")
 
@@ -456,6 +515,15 @@ class Runner:
         if tok == "r":
             if win is not None:
                 win.render_to_terminal([fmtstr("ab")])
+            return
+        if tok.startswith("et"):       # somebody else changes the tty attributes
+            termios.tcsetattr(self.slave, termios.TCSANOW, apply_env_tty(termios.tcgetattr(self.slave), int(tok[2:])))
+            return
+        if tok.startswith("ef"):       # ... the file status flags
+            fcntl.fcntl(self.slave, fcntl.F_SETFL, fcntl.fcntl(self.slave, fcntl.F_GETFL) ^ int(tok[2:]))
+            return
+        if tok.startswith("es"):       # ... the SIGINT handler
+            signal.signal(signal.SIGINT, self.sig_map[tok[2:]])
             return
         if inp is None:
             return
@@ -496,11 +564,13 @@ class Runner:
             if tok == "!":
                 raise Boom()
             if tok.startswith("("):
-                cm = self.make(tok)
+                cm, tok = self.make(tok)
                 j = self.skip(toks, i + 1)
                 before = len(self.snaps) - 1
                 try:
                     with cm:
+                        if tok[1] == "I":
+                            self.entries.append(cm)
                         self.events.append(("enter", tok, self.snapshot(), before))
                         self.exec_level(toks, i + 1, stack + [(tok, cm)])
                 finally:
@@ -580,12 +650,13 @@ class Runner:
             return str(USER_WAKE)
         return "fd%d" % fd
 
-    def name_sig(self, h):
+    def name_sig(self, h, nentries=None):
         for k, v in self.sig_map.items():
-            if h is v or h == v:
+            if h is v:
                 return k
-        for i, inp in enumerate(self.inputs):
-            if h == inp.sigint_handler:
+        ents = self.entries if nentries is None else self.entries[:nentries]
+        for i in range(len(ents) - 1, -1, -1):       # the model numbers Inputs per ENTRY: latest entry of that object
+            if h == ents[i].sigint_handler:
                 return "I%d" % i
         return "?%r" % (h,)
 
@@ -596,10 +667,16 @@ class Runner:
             return False
 
 
+def model_tokens(toks):
+    """`(=k` (re-use object k) is, for the model, entering the same Ctx again"""
+    created = [t for t in toks if t.startswith("(") and not t.startswith("(=")]
+    return [created[int(t[2:])] if t.startswith("(=") else t for t in toks]
+
+
 def line(c):
     r = c["_runner"]
     return " ".join(["ctxsim", str(c["main"]), str(r.fl0), str(os.O_NONBLOCK), c["sig0"],
-                     str(USER_WAKE) if c["wake0"] else "N"] + c["toks"])
+                     str(USER_WAKE) if c["wake0"] else "N"] + model_tokens(c["toks"]))
 
 
 def compare(c, model_reply):
@@ -621,7 +698,7 @@ def compare(c, model_reply):
     try:
         for k, (p, o) in enumerate(zip(preds, obs)):
             f = dict(x.split("=", 1) for x in p.split(";"))
-            got = dict(fl=str(o["fl"]), sig=r.name_sig(o["sig"]), wake=r.name_fd(o["wake"], o["npipes"]), nfds=str(len(o["fds"])),
+            got = dict(fl=str(o["fl"]), sig=r.name_sig(o["sig"], o["nentries"]), wake=r.name_fd(o["wake"], o["npipes"]), nfds=str(len(o["fds"])),
                        cur=str(int(o["cur"])), alt=str(int(o["alt"])), main=str(int(o["main_writes"] > 0)))
             f["main"] = str(int(int(f["main"]) > 0))
             if got["wake"] == "?":
@@ -728,7 +805,7 @@ def strip(c):
 
 
 def mk_cases(ctx):
-    cases = fixed_cases()
+    cases = corpus_cases() + fixed_cases()
     ctx.exhaustive.append("every context x flag combination x 10 bodies x both threads + nesting/repetition set: %d scripts" % len(cases))
     cases += [rand_case(ctx.rng) for _ in range(2500 if ctx.thorough else 500)]
     return cases
